@@ -244,10 +244,10 @@ Print Assumptions C02_read_rendered_example.
    the region identifiers, no time is negative -- needed, C02_write_is_rendering_needs_nonneg).
    C02_write_denotes: that rendering denotes ndoc d so ro (denote_vtt; the reader does not occur in the statement).
    C02_write_rendering_ok: for a representable document the rendering satisfies the side conditions of the reading half's
-   theorem C02_read_rendered_lines, provided no cue refers to a region with the EMPTY identifier (the reading half demands
-   non-empty setting values; such a document is representable and round-trips, C02_write_rendering_ok_needs_region_id).
-   C02_write_read_via_rendering: hence write -> read re-derived from the rendering theorem and the reading half.
-   C02_write_read_rendering: the three facts for every representable document (reading taken from C02_write_read). *)
+   theorem C02_read_rendered_lines (also when a cue refers to the region with the EMPTY identifier, written region: with
+   nothing after the colon: C02_write_rendering_empty_region_id).
+   C02_write_read_via_rendering: hence write -> read re-derived from the rendering theorem and the reading half alone
+   (C02_write_read is not used). *)
 Theorem C02_write_is_rendering : forall d so ro, vd_items d <> [] -> regions_keyed d ro -> times_nonneg d ->
   write_vtt d so ro = Ok (render_eol [10%N] (render_vtt (w_hrend d so ro) (w_gdoc d so ro) (w_cues d) [])).
 Proof. exact write_is_rendering. Qed.
@@ -263,26 +263,19 @@ Theorem C02_write_denotes_count : forall d so ro, (Z.of_nat (length (vd_items d)
   denote_vtt (w_gdoc d so ro) (w_cues d) = ndoc d so ro.
 Proof. exact write_denotes_count. Qed.
 Print Assumptions C02_write_denotes_count.
-Theorem C02_write_rendering_ok : forall d so ro, repr_vdoc d so ro -> region_refs_nonempty d ->
+Theorem C02_write_rendering_ok : forall d so ro, repr_vdoc d so ro ->
   hrend_ok (w_hrend d so ro) (w_gdoc d so ro) /\ gdoc_ok (w_gdoc d so ro) /\
   Forall (fun p => gcue_ok (denote_regions (w_gdoc d so ro)) (snd p) /\ crend_ok (fst p) (snd p)) (w_cues d) /\
   Forall (fun p => cr_before (fst p) <> []) (tl (w_cues d)) /\ Forall blank (@nil str).
 Proof. exact write_rendering_ok. Qed.
 Print Assumptions C02_write_rendering_ok.
-Theorem C02_write_read_via_rendering : forall d so ro, repr_vdoc d so ro -> region_refs_nonempty d ->
+Theorem C02_write_read_via_rendering : forall d so ro, repr_vdoc d so ro ->
   exists data, write_vtt d so ro = Ok data /\
     data = render_eol [10%N] (render_vtt (w_hrend d so ro) (w_gdoc d so ro) (w_cues d) []) /\
     read_vtt data = Ok (denote_vtt (w_gdoc d so ro) (w_cues d)) /\
     denote_vtt (w_gdoc d so ro) (w_cues d) = ndoc d so ro.
 Proof. exact write_read_via_rendering. Qed.
 Print Assumptions C02_write_read_via_rendering.
-Theorem C02_write_read_rendering : forall d so ro, repr_vdoc d so ro ->
-  exists data, write_vtt d so ro = Ok data /\
-    data = render_eol [10%N] (render_vtt (w_hrend d so ro) (w_gdoc d so ro) (w_cues d) []) /\
-    read_vtt data = Ok (denote_vtt (w_gdoc d so ro) (w_cues d)) /\
-    denote_vtt (w_gdoc d so ro) (w_cues d) = ndoc d so ro.
-Proof. exact write_read_rendering. Qed.
-Print Assumptions C02_write_read_rendering.
 (* a rendering given as bytes is read under the general side conditions too (C02_read_rendered has the decidable check) *)
 Theorem C02_read_rendered_bytes_gen : forall e h g cues eof, eol_ok e ->
   hrend_ok h g -> gdoc_ok g ->
@@ -316,10 +309,9 @@ Example C02_write_is_rendering_needs_nonneg :
   render_vtt (w_hrend neg_doc [] []) (w_gdoc neg_doc [] []) (w_cues neg_doc) [] =
   [b "WEBVTT"; []; b "1"; b "0-1:59:59.999 --> 00:00:01.000"; b "second"].
 Proof. exact write_is_rendering_needs_nonneg. Qed.
-Example C02_write_rendering_ok_needs_region_id :
+Example C02_write_rendering_empty_region_id :
   repr_vdoc noid_doc [] [[]] /\
   render_vtt (w_hrend noid_doc [] [[]]) (w_gdoc noid_doc [] [[]]) (w_cues noid_doc) [] =
   [b "WEBVTT"; []; b "Region: id="; []; b "1"; b "00:00:00.000 --> 00:00:01.000 region:"; b "second"] /\
-  rendering_okb (w_hrend noid_doc [] [[]]) (w_gdoc noid_doc [] [[]]) (w_cues noid_doc) [] = false /\
-  ~ region_refs_nonempty noid_doc.
-Proof. exact (conj noid_doc_repr write_rendering_ok_needs_region_id). Qed.
+  rendering_okb (w_hrend noid_doc [] [[]]) (w_gdoc noid_doc [] [[]]) (w_cues noid_doc) [] = true.
+Proof. exact (conj noid_doc_repr write_rendering_empty_region_id). Qed.
